@@ -1,6 +1,23 @@
 #!/usr/bin/env python3
 """print a markdown table of /verif/seeded/*/meta.json (which checks catch which independently written changes)"""
 import glob, json, os
+# verdict of the FIRST run of the then-registered check against the change, where it differed from the final one, and what was
+# changed in the machinery afterwards (hand-maintained; the final verdict column is regenerated from seeded/*/meta.json)
+FIRST = {
+    "C09-prefix-separator": "exit 2 (Option::map_or outside vstd) -> prelude of assumed Option combinators",
+    "C09-uncommitted-check-prefixed": "exit 2 (ghost anchor was the edited line) -> structural anchors",
+    "C06-overwrite-on-lost-race": "exit 2 (RawEntryMut::insert not in the stub) -> stub widened, no-overwrite as stub precondition",
+    "C12-expired-histogram-labels": "exit 0 (recorder.rs glue had no contract) -> contracts/C07/recorder.verus.rs",
+    "C08-type-from-family-name": "exit 0 (render had no contract) -> render state machine contract",
+    "C07-global-label-sanitised-at-config": "exit 0 (configuration side unclaimed) -> contract on add_global_label",
+    "C18-peer-addr-expect-kills-listener": "exit 0 (serving clauses unclaimed) -> serve.verus.rs",
+    "C11-partial-write-tail-requeued": "exit 0 (conservation alone holds for a re-queued remainder) -> is_suffix clause on the queue",
+    "C11-drop-oldest-counts-parked-buffer": "exit 0 (run_transport had no boundary) -> fan-out body lifted (R29) and contracted",
+    "C16-drain-drop-subtracts-instead-of-reset": "exit 0 (sequential harnesses only) -> late-push interleaving harness",
+    "C16-fastrand-inclusive-range": "exit 0 (fastrand itself was a trusted stub) -> fastrand.verus.rs",
+    "C17-new-span-merges-current-not-parent": "exit 2 (Context stub lacked lookup_current) -> stub widened",
+    "C17-filter-sees-empty-value": "exit 2 (closure annotation keyed to parameter names) -> annotation by position",
+}
 rows = []
 for f in sorted(glob.glob(os.path.join(os.path.dirname(os.path.dirname(os.path.abspath(__file__))), "seeded", "*", "meta.json"))):
     m = json.load(open(f)); c = m["confirmed_by_us"]; chk = c.get("check", {})
@@ -8,8 +25,8 @@ for f in sorted(glob.glob(os.path.join(os.path.dirname(os.path.dirname(os.path.a
     ob = next((l.split("obligation=")[1][:110] for l in lines if l.startswith("VIOLATION")), "")
     why = next((l[:140] for l in lines if l.startswith("UNDECIDED")), "")
     verdict = "caught" if c.get("detected") else ("undecided (exit 2)" if chk.get("exit") == 2 else "missed (exit 0)")
-    rows.append((c["id"], m.get("breaks_property"), (m.get("summary") or "")[:150].replace("|", "/"), verdict, ob or why))
-print("| seeded change | property | what it does | verdict | failing obligation / reason |")
-print("|---|---|---|---|---|")
+    rows.append((c["id"], m.get("breaks_property"), (m.get("summary") or "")[:150].replace("|", "/"), verdict, ob or why, FIRST.get(c["id"], "same")))
+print("| seeded change | property | what it does | verdict now | failing obligation / reason | first run, and what changed |")
+print("|---|---|---|---|---|---|")
 for r in rows:
     print("| " + " | ".join(str(x).replace("\n", " ") for x in r) + " |")
